@@ -44,6 +44,14 @@ impl Proj {
     pub fn trace_lines(&self) -> Vec<String> {
         std::fs::read_to_string(&self.trace).unwrap_or_default().lines().map(|s| s.to_string()).collect()
     }
+    pub fn spawn_env(&self, args: &[&str], envs: &[(&str, &str)]) -> Child {
+        let mut c = Command::new(zinoma_bin());
+        c.args(args).current_dir(&self.root).env("ZV_MARKER", &self.marker).stdin(Stdio::null()).stdout(Stdio::null()).stderr(Stdio::piped());
+        for (k, v) in envs {
+            c.env(k, v);
+        }
+        c.spawn().expect("spawn zinoma")
+    }
     pub fn spawn(&self, args: &[&str]) -> Child {
         Command::new(zinoma_bin()).args(args).current_dir(&self.root).env("ZV_MARKER", &self.marker).stdin(Stdio::null()).stdout(Stdio::null()).stderr(Stdio::piped()).spawn().expect("spawn zinoma")
     }
@@ -342,8 +350,39 @@ fn c11_dependency_only_service_is_transient() -> Option<(String, String)> {
     r
 }
 
+/// "is stopped when zinoma exits", on the failure exit path: a service (requested directly, through an aggregate,
+/// or only a dependency) runs while a build fails; repeated because what the abandoned actors still do by
+/// themselves races with the exit
+fn c11_service_stopped_after_a_failure() -> Option<(String, String)> {
+    for round in 0..12 {
+        let p = Proj::new("c11f");
+        let wait_db = format!("while ! grep -q \"start db\" {t} 2>/dev/null; do sleep 0.01; done; exit 3", t = p.trace.display());
+        p.write_yml(
+            "zinoma.yml",
+            &format!("targets:\n  db:\n    service: '{}'\n  bad:\n    build: '{}'\n  client:\n    dependencies: [db]\n    build: '{}'\n  all:\n    dependencies: [db, bad]\n", p.forever("db"), p.script("bad", &wait_db), p.script("client", &wait_db)),
+        );
+        let args: Vec<&str> = match round % 3 {
+            0 => vec!["all"],
+            1 => vec!["db", "bad"],
+            _ => vec!["client"],
+        };
+        let c = p.spawn(&args);
+        let e = wait_end(c, 20);
+        let left = p.leftovers();
+        p.cleanup();
+        if e.timed_out {
+            return Some(("failure exit not prompt under a service".to_string(), format!("zinoma {:?} still running 20 s after a build failed", args)));
+        }
+        if !left.is_empty() {
+            return Some(("service left running after zinoma exited on a failure".to_string(), format!("zinoma {:?}: {:?}", args, left)));
+        }
+    }
+    None
+}
+
 pub fn bind_c11(rep: &mut Report) {
     let sc: Vec<Scenario> = vec![
+        ("a build fails while a service runs: the service is stopped when zinoma exits", c11_service_stopped_after_a_failure),
         ("service requested directly", || c11_requested_service_keeps_alive(&["s"])),
         ("service requested through an aggregate", || c11_requested_service_keeps_alive(&["agg"])),
         ("service requested through nested aggregates", || c11_requested_service_keeps_alive(&["outer"])),
@@ -544,8 +583,41 @@ fn c08_corrupted_record_and_sibling_state() -> Option<(String, String)> {
     r
 }
 
+/// closure across projects with equal target names: a named root `app` with its own `gen`, an imported `lib` with
+/// `gen`; `bundle` takes lib::gen.output: exactly lib::gen and bundle run, each once (also with `--clean bundle`)
+fn c08_cross_project_closure() -> Option<(String, String)> {
+    for args in [vec!["bundle"], vec!["app::bundle", "bundle"], vec!["--clean", "bundle"]] {
+        let p = Proj::new("c08x");
+        p.write_yml(
+            "zinoma.yml",
+            &format!(
+                "name: app\nimports:\n  lib: lib\ntargets:\n  gen:\n    build: '{}'\n    output: [{{paths: [app-gen.txt]}}]\n  bundle:\n    input: [\"lib::gen.output\"]\n    build: '{}'\n",
+                p.script("app-gen", &format!("echo x > app-gen.txt; echo end app-gen >> {}", p.trace.display())),
+                p.quick("bundle")
+            ),
+        );
+        p.write_yml("lib/zinoma.yml", &format!("name: lib\ntargets:\n  gen:\n    build: '{}'\n    output: [{{paths: [lib-gen.txt]}}]\n", p.script("lib-gen", &format!("echo x > lib-gen.txt; echo end lib-gen >> {}", p.trace.display()))));
+        let (code, err, to) = run_to_end(&p, &args);
+        let mut got: Vec<String> = p.trace_lines().into_iter().filter(|l| l.starts_with("start ")).collect();
+        got.sort();
+        let files_ok = p.root.join("lib/lib-gen.txt").exists() && !p.root.join("app-gen.txt").exists();
+        p.cleanup();
+        if to {
+            return Some(("run does not end".to_string(), format!("zinoma {:?}", args)));
+        }
+        if code != Some(0) {
+            return Some(("a valid cross-project reference is refused".to_string(), format!("zinoma {:?}: exit {:?}: {}", args, code, err.lines().rev().take(3).collect::<Vec<_>>().join(" | "))));
+        }
+        if got != vec!["start bundle".to_string(), "start lib-gen".to_string()] || !files_ok {
+            return Some(("executed set is not the closure (equal target names in two projects)".to_string(), format!("zinoma {:?}: scripts {:?}, expected exactly lib-gen and bundle once each; lib-gen.txt present and app-gen.txt absent: {}", args, got, files_ok)));
+        }
+    }
+    None
+}
+
 pub fn bind_c08(rep: &mut Report) {
     let sc: Vec<Scenario> = vec![
+        ("named root and imported project with equal target names: X.output across projects", c08_cross_project_closure),
         ("diamond, every target once", || c04_shape(yml_diamond, &["a", "a", "d"], &["a", "b", "c", "d"])),
         ("request b: only b and d run", c08_outside_closure),
         ("damaged record of a requested target, sibling state untouched", c08_corrupted_record_and_sibling_state),
@@ -1102,6 +1174,25 @@ fn c06_every_resource_watched() -> Option<(String, String)> {
         }
         std::thread::sleep(Duration::from_millis(400));
     }
+    // a detected change is not absorbed by a skip: different content arriving with an older modification time
+    // (an older copy moved into place)
+    {
+        if !alive(&mut c) {
+            return fail(c, &p, "watch run ended by itself".into(), String::new());
+        }
+        let before = count(&p, "end t");
+        let tmp = p.base.join("older-copy.txt");
+        write(&tmp, b"content of an older copy, different from what was built");
+        crate::sequtil::set_mtime(&tmp, 978_307_200); // 2001-01-01
+        std::fs::rename(&tmp, p.root.join("src/a.txt")).unwrap();
+        let t0 = Instant::now();
+        while count(&p, "end t") == before && t0.elapsed() < Duration::from_secs(12) {
+            std::thread::sleep(Duration::from_millis(20));
+        }
+        if count(&p, "end t") == before {
+            return fail(c, &p, "a change that carries an older modification time was absorbed".into(), "moved a different, older-dated file over src/a.txt and waited 12 s for another `end t`".into());
+        }
+    }
     signal(&c, libc::SIGINT);
     let e = wait_end(c, 15);
     let left = p.leftovers();
@@ -1161,8 +1252,49 @@ fn yml_build_beside_service_dep(p: &Proj) -> String {
     format!("targets:\n  lib:\n    build: '{}'\n  db:\n    service: '{}; exec sleep 1000'\n  top:\n    dependencies: [lib, db]\n    build: '{}'\n", rendezvous(p, "lib", &all), rendezvous(p, "db", &all), p.quick("top"))
 }
 
+/// targets that are busy computing the state of a slow `cmd_stdout` input hold nothing another target needs:
+/// with a runtime of two worker threads, two such targets are held until an independent chain gate -> probe has
+/// run (the probe's script is what releases the commands; a command gives up after 20 s)
+fn c17_slow_state_commands() -> Option<(String, String)> {
+    let p = Proj::new("c17c");
+    let tr = p.trace.display().to_string();
+    write(
+        &p.root.join("hold.sh"),
+        format!("echo \"cmd $1\" >> {tr}\ni=0\nwhile [ ! -e release ] && [ $i -lt 200 ]; do sleep 0.1; i=$((i+1)); done\nif [ -e release ]; then echo \"released $1\" >> {tr}; else echo \"gave-up $1\" >> {tr}; fi\necho value-$1\n", tr = tr).as_bytes(),
+    );
+    p.write_yml(
+        "zinoma.yml",
+        &format!(
+            "targets:\n  a:\n    input: [{{cmd_stdout: \"sh hold.sh a\"}}]\n    build: '{}'\n  b:\n    input: [{{cmd_stdout: \"sh hold.sh b\"}}]\n    build: '{}'\n  gate:\n    build: '{}'\n  probe:\n    dependencies: [gate]\n    build: '{}'\n  all:\n    dependencies: [a, b, probe]\n",
+            p.quick("a"),
+            p.quick("b"),
+            p.script("gate", &format!("while ! grep -q \"cmd a\" {tr} || ! grep -q \"cmd b\" {tr}; do sleep 0.05; done; echo end gate >> {tr}", tr = tr)),
+            p.script("probe", &format!("touch release; echo end probe >> {tr}", tr = tr)),
+        ),
+    );
+    let c = p.spawn_env(&["all"], &[("ASYNC_STD_THREAD_COUNT", "2")]);
+    let e = wait_end(c, 90);
+    let tr = p.trace_lines();
+    let left = p.leftovers();
+    p.cleanup();
+    if e.timed_out {
+        return Some(("run does not end".to_string(), format!("trace {:?}", tr)));
+    }
+    if tr.iter().any(|l| l.starts_with("gave-up")) {
+        return Some(("independent targets made no progress while two others computed the state of their inputs".to_string(), format!("two worker threads, targets a and b each inside a slow cmd_stdout input, gate -> probe independent of both: the commands were never released by the probe; trace {:?}", tr)));
+    }
+    if e.code != Some(0) || !tr.iter().any(|l| l == "end a") || !tr.iter().any(|l| l == "end b") {
+        return Some(("set-up: run failed".to_string(), format!("exit {:?} trace {:?} stderr {}", e.code, tr, e.stderr.lines().rev().take(3).collect::<Vec<_>>().join(" | "))));
+    }
+    if !left.is_empty() {
+        return Some(("process left behind".to_string(), format!("{:?}", left)));
+    }
+    None
+}
+
 pub fn bind_c17(rep: &mut Report) {
     let sc: Vec<Scenario> = vec![
+        ("two targets inside slow cmd_stdout inputs on a two-thread runtime, an independent chain beside them", c17_slow_state_commands),
         ("three independent builds under an aggregate", || c17_rendezvous(&["x", "y", "z"], yml_three_independent, &["all"])),
         ("three independent builds requested one by one", || c17_rendezvous(&["x", "y", "z"], yml_three_independent, &["z", "x", "y"])),
         ("a build and a service that are both dependencies of one build", || c17_rendezvous(&["lib", "db"], yml_build_beside_service_dep, &["top"])),
